@@ -18,16 +18,42 @@ import elexmodel.models.ConformalElectionModel as CM  # noqa: E402
 import elexmodel.models.NonparametricElectionModel as NM  # noqa: E402
 
 
-def stmt(fn, name):
+def stmt(fn, name, supplied=()):
+    """the right-hand side of the real statement `name = ...`; a local it reads that ONE earlier top-level statement of the
+    function defines (and nothing else stores to) is replaced by that statement's right-hand side -- so that extracting a
+    sub-expression into a local just before the statement keeps the check on the real text"""
     src = textwrap.dedent(inspect.getsource(fn))
-    for n in ast.walk(ast.parse(src)):
-        if isinstance(n, ast.Assign) and len(n.targets) == 1 and isinstance(n.targets[0], ast.Name) and n.targets[0].id == name:
-            return compile(ast.Expression(n.value), "<real statement>", "eval"), ast.unparse(n.value)
-    raise SystemExit(f"statement {name} not found")
+    fdef = ast.parse(src).body[0]
+    body = fdef.body
+    idx = [i for i, n in enumerate(body) if isinstance(n, ast.Assign) and len(n.targets) == 1 and isinstance(n.targets[0], ast.Name) and n.targets[0].id == name]
+    if not idx:
+        for n in ast.walk(fdef):
+            if isinstance(n, ast.Assign) and len(n.targets) == 1 and isinstance(n.targets[0], ast.Name) and n.targets[0].id == name:
+                return compile(ast.Expression(n.value), "<real statement>", "eval"), ast.unparse(n.value)
+        raise SystemExit(f"statement {name} not found")
+    i0 = idx[-1]
+    expr = body[i0].value
+    for _ in range(8):
+        reads = {x.id for x in ast.walk(expr) if isinstance(x, ast.Name) and isinstance(x.ctx, ast.Load)}
+        done = True
+        for nm in reads - set(supplied):
+            defs = [j for j in range(i0) if isinstance(body[j], ast.Assign) and len(body[j].targets) == 1 and isinstance(body[j].targets[0], ast.Name) and body[j].targets[0].id == nm]
+            stores = [j for j in range(i0) if any(isinstance(x, ast.Name) and x.id == nm and isinstance(x.ctx, ast.Store) for x in ast.walk(body[j]))]
+            if len(defs) == 1 and stores == defs:
+
+                class Sub(ast.NodeTransformer):
+                    def visit_Name(self, node, nm=nm, val=body[defs[0]].value):
+                        return val if (node.id == nm and isinstance(node.ctx, ast.Load)) else node
+
+                expr = ast.fix_missing_locations(Sub().visit(expr))
+                done = False
+        if done:
+            break
+    return compile(ast.Expression(expr), "<real statement>", "eval"), ast.unparse(expr)
 
 
-train_code, train_src = stmt(CM.ConformalElectionModel.get_unit_prediction_interval_bounds, "train_rows")
-q_code, q_src = stmt(NM.NonparametricElectionModel.get_unit_prediction_intervals, "correction_quantile")
+train_code, train_src = stmt(CM.ConformalElectionModel.get_unit_prediction_interval_bounds, "train_rows", supplied=("math", "self", "conf_frac", "max", "min"))
+q_code, q_src = stmt(NM.NonparametricElectionModel.get_unit_prediction_intervals, "correction_quantile", supplied=("alpha", "prediction_intervals"))
 m = NM.NonparametricElectionModel({})
 
 
